@@ -444,6 +444,9 @@ def apply_splices(body, splices, log, what):
                 m = rx.search(body)
                 if m:
                     log.append("splice anchor /%s/ not found verbatim; loosened to the binding statement" % anchor)
+        if not m and sp.get("optional"):
+            log.append("optional proof hint /%s/: anchor absent, hint skipped" % anchor)
+            continue
         if not m:
             raise AnchorLost("splice anchor %r lost in %s" % (anchor, what))
         eol = body.find("\n", m.end())
